@@ -777,6 +777,12 @@ class C14(Check):
             cases = cases[:8]
         else:
             cases = cases * 3
+        # positions in which even the first iteration is expensive (the quiescence search under every root move):
+        # the clock must be able to cut it short
+        heavy = ["position fen qqqqkqqq/qqqqqqqq/8/8/8/8/QQQQQQQQ/QQQQKQQQ w - - 0 1",
+                 "position fen q2k2q1/2nqn2b/1n1P1n1b/2rnr2Q/1NQ1QN1Q/3Q3B/2RQR2B/Q2K2Q1 w - - 0 1"]
+        for pos in heavy:
+            cases.append((pos, "go wtime 300 btime 300", 300, "heavy-first-iteration"))
         return cases
 
     def extra_phase(self, harness_bin):
@@ -1285,6 +1291,20 @@ class C08(SearchCheck):
             "positions (the Win-at-Chess set is mate-rich), playouts and placements: line replayed on the Rules spec "
             "(legality, length vs. mate announcement, final position checkmate), depth sequence checked; distinct = distinct jobs")
 
+    def extra_requests(self, req_path, harness_bin):
+        # mates that first show up at aspiration depths (>= 5) and far outside the window around the previous
+        # score: sparse endgames searched deep, both colours
+        def mirror(fen):
+            b, side, *_ = fen.split(" ")
+            return "/".join(r.swapcase() for r in reversed(b.split("/"))) + (" b" if side == "w" else " w") + " - - 0 1"
+        late = ["8/6k1/8/2R5/8/1K6/3Q1p2/8 w - - 1 25", "8/8/8/4k3/8/8/3QK3/8 w - - 0 1", "8/8/1k6/8/8/2R5/3K4/8 w - - 0 1",
+                "8/8/8/8/8/2k5/7r/1K6 w - - 0 1", "5k2/8/8/8/8/8/5PPP/3R2K1 b - - 0 1", "8/8/8/3k4/8/8/4PP2/4K2R w K - 0 1"]
+        d = 8 if self.tier == "quick" else 11
+        lines = [f"search\t1\t{f}||{d}|0|0;{mirror(f)}||{d}|0|0" for f in late]
+        with open(req_path, "a") as f:
+            f.write("\n".join(lines) + "\n")
+        return req_path
+
     def judge_job(self, req, job, res, verdict):
         depth_limit = job.split("|")[2]
         depths = [int(i["d"]) for i in res["infos"]]
@@ -1319,6 +1339,15 @@ class C09(SearchCheck):
             "the same tables; both answers and all reported lines are replayed on the Rules spec; distinct = distinct (search, k)")
 
     def extra_requests(self, req_path, harness_bin):
+        # tactical positions searched deep enough for null-move and late-move-reduction nodes with quiescence
+        # below them: a stop first seen there unwinds through every kind of frame
+        deep = ["r3k2r/p1ppqpb1/bn2pnp1/3PN3/1p2P3/2N2Q1p/PPPBBPPP/R3K2R w KQkq - 0 1",
+                "r4rk1/1pp1qppp/p1np1n2/2b1p1B1/2B1P1b1/P1NP1N2/1PP1QPPP/R4RK1 w - - 0 10",
+                "r3k2r/Pppp1ppp/1b3nbN/nP6/BBP1P3/q4N2/Pp1P2PP/R2Q1RK1 w kq - 0 1"]
+        dd = 5 if self.tier == "quick" else 6
+        with open(req_path, "a") as f:
+            for fen in deep:
+                f.write(f"search\t1\t{fen}||{dd}|0|1\n")
         # free runs on the implementation only: how many polls does the unstopped search make?
         ipath = os.path.join(self.wd, "free.impl")
         vlib.serve(harness_bin, req_path, ipath)
@@ -1339,8 +1368,11 @@ class C09(SearchCheck):
                 job = fields[2].split("|")
                 ks = list(range(1, P + 1))
                 if len(ks) > cap:
-                    stride = (P - cap // 2) // (cap // 2) + 1
-                    ks = sorted(set(list(range(1, cap // 2 + 1)) + list(range(cap // 2 + 1, P + 1, stride)) + [P - 1, P]))
+                    # the first polls, then a seeded random sample of the rest (a stride would always land on the
+                    # same kind of node), then the last two
+                    rnd = random.Random(self.seed * 7919 + P)
+                    rest = list(range(cap // 3 + 1, P - 1))
+                    ks = sorted(set(list(range(1, cap // 3 + 1)) + rnd.sample(rest, min(len(rest), cap - cap // 3)) + [P - 1, P]))
                 for k in ks:
                     j = "|".join(job[:3] + [str(k), "1"])
                     f.write(f"search\t{fields[1]}\t{j};{'|'.join(job[:3] + ['0', '0'])}\n")
@@ -1480,10 +1512,17 @@ class C12(SearchCheck):
             p = self.DEEP[(k + 1) % len(self.DEEP)]
             for dl in ({"PRINTED": 40}, {"TAIL": 40}, None):
                 jobs.append((p, q, dl))
+            # a `stop` that arrives after the search has already answered (a race no GUI can avoid) must leave
+            # nothing behind: neither for the next game nor for the next search of this one
+            jobs.append((p, q, "late-stop"))
 
         def work(job):
             p, q, dl = job
             fresh = run([f"position fen {q}", f"go depth {depth}", "@bestmove"], None)
+            if dl == "late-stop":
+                used = run([f"position fen {p}", f"go depth {depth}", "@bestmove", "stop", "ucinewgame", "isready", "@readyok",
+                            f"position fen {q}", f"go depth {depth}", "@bestmove"], None)
+                return fresh, used
             used = run([f"position fen {p}", f"go depth {depth}", "@bestmove", "ucinewgame", "isready", "@readyok",
                         f"position fen {q}", f"go depth {depth}", "@bestmove"], dl)
             return fresh, used
@@ -1492,7 +1531,7 @@ class C12(SearchCheck):
             results = list(ex.map(work, jobs))
         for (p, q, dl), (fresh, used) in zip(jobs, results):
             self.evaluations += 1
-            key = "uci-newgame:" + ("+".join(sorted(dl)) if dl else "no-hold")
+            key = "uci-newgame:" + (dl if isinstance(dl, str) else "+".join(sorted(dl)) if dl else "no-hold")
             self.features[key] = self.features.get(key, 0) + 1
             req = f"uci-newgame\t{p}\t{q}\t{depth}\t{dl}"
             if fresh is None or used is None:
@@ -1845,6 +1884,44 @@ class C13(UciCheck):
                     records.append((name, v, fen, got.split()[1], cur_hash, go))
             finally:
                 e.kill()
+        # "between searches" includes the moment right after `bestmove`: the search thread has answered but still
+        # owns the shared state (hook H3 holds it there); whatever the engine does with the value then, it must
+        # keep answering
+        for name, (lo, dflt, hi) in sorted(opts.items()):
+            for hold in ({"TAIL": 80}, {"PRINTED": 80}):
+                e = ucimod.Engine(binary, hold)
+                try:
+                    e.send("uci")
+                    e.read_until(lambda l: l == "uciok", 10)
+                    ok = True
+                    for v in (lo, min(lo + 1, hi), min(dflt, 16) if name == "Hash" else dflt):
+                        self.evaluations += 1
+                        self.features["set-right-after-bestmove"] = self.features.get("set-right-after-bestmove", 0) + 1
+                        e.send(f"position fen {fens[0]}")
+                        e.send("go depth 2")
+                        got, _ = e.read_until(lambda l: l.startswith("bestmove"), 60)
+                        e.send(f"setoption name {name} value {v}")
+                        e.send("isready")
+                        rd, _ = e.read_until(lambda l: l == "readyok", 30)
+                        if got is None or rd is None:
+                            issues.append(Issue("oracle", f"{name}={v} right after bestmove (search thread held at {hold})", "", "", "",
+                                                f"setoption name {name} value {v} sent on bestmove: isready not answered "
+                                                f"({'engine alive' if e.alive() else 'engine process died'})", "uci"))
+                            ok = False
+                            break
+                        e.send(f"position fen {fens[1]}")
+                        e.send("go depth 2")
+                        got2, _ = e.read_until(lambda l: l.startswith("bestmove"), 60)
+                        if got2 is None:
+                            issues.append(Issue("oracle", f"{name}={v} right after bestmove (search thread held at {hold})", "", "", "",
+                                                f"no bestmove in the search after setoption name {name} value {v} sent on bestmove", "uci"))
+                            ok = False
+                            break
+                        records.append((name, v, fens[1], got2.split()[1], 0, "go depth 2"))
+                    if not ok:
+                        continue
+                finally:
+                    e.kill()
         # legality by the rules, and the model's own answer for Hash values (fresh table per plan is
         # not guaranteed, so the model comparison is restricted to the first search of each engine run)
         reqs = [f"verify\t{fen}\t\t{bm}:0\t" for (_, _, fen, bm, _, _) in records]
@@ -2031,6 +2108,60 @@ class C17(UciCheck):
                 elif impl != model:
                     issues.append(Issue("corr", r, impl, model, spec, "engine model replays the game differently", "uci"))
                     break
+        if not self._replay:
+            issues += self.position_around_search(binary, reqs, answers)
+        return issues
+
+    def position_around_search(self, binary, reqs, answers):
+        """the `position` command at the moments a GUI really sends it: right after `bestmove` (the search thread has
+        answered but — held there by hook H3 — still owns the shared state), and in analysis mode (`stop`, `position`,
+        `go`) on the second search of a session; the position shown afterwards must be the game's"""
+        issues = []
+        games = [(r, spec) for r, (_, spec) in zip(reqs, answers) if len(r.split("\t")) > 2 and r.split("\t")[2].split()][:6]
+
+        def cmd_of(fen, moves):
+            head = "position startpos" if fen == START else f"position fen {fen}"
+            return head + (" moves " + " ".join(moves) if moves else "")
+
+        def session(r, kind, hold):
+            f = r.split("\t")
+            fen = f[1]
+            moves = [m.split(":")[0] for m in f[2].split()]
+            e = ucimod.Engine(binary, hold)
+            try:
+                e.send("uci")
+                e.read_until(lambda l: l == "uciok", 10)
+                e.send(cmd_of(fen, moves[:-1]))
+                if kind == "on-bestmove":
+                    e.send("go depth 2")
+                    e.read_until(lambda l: l.startswith("bestmove"), 30)
+                    e.send(cmd_of(fen, moves))
+                else:
+                    # analysis mode: the second `stop` of a session does not wait for the search to end
+                    e.send("go infinite"); time.sleep(0.05); e.send("stop")
+                    e.read_until(lambda l: l.startswith("bestmove"), 30)
+                    e.send(cmd_of(fen, moves[:-1]))
+                    e.send("go infinite"); time.sleep(0.05); e.send("stop")
+                    e.send(cmd_of(fen, moves))
+                    e.read_until(lambda l: l.startswith("bestmove"), 30)
+                e.send("d fen")
+                got, _ = e.read_until(lambda l: l.startswith("FEN: "), 10)
+                return got[5:] if got else ("dead" if not e.alive() else "silent")
+            finally:
+                e.kill()
+
+        jobs = [(r, spec, kind, hold) for (r, spec) in games
+                for (kind, hold) in (("on-bestmove", {"TAIL": 80}), ("on-bestmove", {"PRINTED": 80}), ("analysis", {"PRINTED": 80}))]
+        with ThreadPoolExecutor(max_workers=6) as ex:
+            got = list(ex.map(lambda j: session(j[0], j[2], j[3]), jobs))
+        for (r, spec, kind, hold), fen_i in zip(jobs, got):
+            self.evaluations += 1
+            self.features["position-" + kind] = self.features.get("position-" + kind, 0) + 1
+            want = dict(x.split("=", 1) for x in spec.split("|")).get("fen")
+            if fen_i != want:
+                issues.append(Issue("oracle", r, f"fen={fen_i}", "", spec,
+                                    f"`position` sent {kind} (search thread held at {hold}): the engine shows {fen_i}, the game's "
+                                    f"position is {want}: {r[:200]}", "uci"))
         return issues
 
 
